@@ -47,6 +47,9 @@ func run(c *h.Ctx, cs Case) {
 	r := chain.Eval(cs.Case)
 	if r.PolicyUnspec {
 		c.P.Unspecified()
+		for _, o := range r.UnspecOps {
+			c.P.Class("unspec:" + o)
+		}
 		return
 	}
 	if !r.All(1, 7) || !r.R[9] {
